@@ -84,6 +84,10 @@ def fam(origin):
         f["length"] = [("length", str(i)) for i in (0, 1, 2, 3)]
         f["min_length"] = [("min_length", str(i)) for i in (1, 2, 3)]
         f["max_length"] = [("max_length", str(i)) for i in (1, 2, 3)]
+    elif origin == "None":
+        # a rule without an origin type: const / enum are all it can declare about the value (None is a legal constant)
+        f["const"] = [("const", x) for x in ("None", "0", "'a'", "False", "()")]
+        f["enum"] = [("enum", x) for x in ("[1, 'a', None]", "[None]", "['', 0]")]
     elif origin == "datetime":
         f["lower"] = [(n, "datetime(2020,1,2,3,4,5)") for n in ("gt", "ge")]
         f["upper"] = [(n, "datetime(2020,1,3)") for n in ("lt", "le")]
@@ -97,7 +101,7 @@ def fam(origin):
 
 
 ORIGINS = ["int", "float", "Decimal", "str", "bytes", "list", "tuple", "set", "frozenset", "dict", "datetime", "date",
-           "timedelta"]
+           "timedelta", "None"]
 SOLO = ("const", "enum")
 # length constraints on lengthless (numeric) types are validated on str(value) (documented, with a warning at
 # declaration); combined with constraints that re-quantise the value the documentation does not say which
@@ -128,6 +132,8 @@ def constraint_sets(origin, arity):
 
 def windows(origin, cons):
     """value expressions of the source type around every bound"""
+    if origin == "None":
+        return ["None", "0", "1", "'a'", "''", "False", "True", "1.0", "0.0", "[]", "()", "'None'", "b'a'", "{}"]
     if origin == "int":
         vals = list(range(-12, 13)) + [99, 100, 101, 999, 1000, 1001, 9999, 10000, 10001, -99, -100, -1000, 10 ** 20]
         # bool is its own primitive group: True/False given to an int type are *converted* (to 1/0), so they are
@@ -250,6 +256,10 @@ def _enum_class(cons):
 
 
 def decl_expr(origin, cons, inherited=False):
+    if inherited == "annotated":
+        # the first constraint in a rule of its own, the others declared on top of it through Rule.annotate
+        # (what a field typed with that rule and given Field(<constraints>) does)
+        return "RA(RC(%s, %s=%s), %s)" % (origin, cons[0][0], cons[0][1], ", ".join(f"{c}={b}" for c, b in cons[1:]))
     if inherited:
         # every constraint in a rule of its own, combined by inheritance with an empty body
         return "RM(%s, %s)" % (origin, ", ".join(f"dict({c}={b})" for c, b in cons))
@@ -338,6 +348,11 @@ def run_shard(shard, tier):
     # pairs of different constraints once more, inherited from two rules (every 3rd pair in the quick tier)
     work += [(cons, True) for i, cons in enumerate(sets) if len(cons) == 2 and len({c for c, _ in cons}) == 2
              and (tier == "thorough" or i % 3 == 0)]
+    work += [(cons, "annotated") for i, cons in enumerate(sets) if len(cons) >= 2 and len({c for c, _ in cons}) == len(cons)
+             and not any(c in SOLO for c, _ in cons) and (tier == "thorough" or i % 3 == 1)
+             # decimal_places completes the value first; in which spelling an outer rule's regex / length then sees it is
+             # not documented for nested rules
+             and not any(c == "decimal_places" for c, _ in cons)]
     for cons, inherited in work:
         dx = decl_expr(origin, cons, inherited)
         _INHERITED[0] = inherited
@@ -347,7 +362,7 @@ def run_shard(shard, tier):
             acc.extra["constraint_sets_rejected_at_declaration"] += 1
             continue
         acc.extra["constraint_sets_accepted"] += 1
-        names = ",".join(c for c, _ in cons) + ("@inherited" if inherited else "")
+        names = ",".join(c for c, _ in cons) + ("@annotated" if inherited == "annotated" else "@inherited" if inherited else "")
         for vx in windows(origin, cons):
             v = ev(vx)
             exp = reference(origin, cons, v)
@@ -388,7 +403,9 @@ def run_shard(shard, tier):
                 acc.violation(fp, f"{dx}({vx}) returned {short(payload)} ({type(payload).__name__}), not the input",
                               script(origin, cons, vx, exp, "ok and not (type(r) is type(v) and (r == v or (r != r and v != v)))"),
                               dict(decl=dx, value=vx, result=short(payload)))
-            # isinstance agreement
+            # isinstance agreement (a rule without an origin has no source type to speak of: isinstance is False by design)
+            if origin == "None":
+                continue
             try:
                 inst = isinstance(v, T)
             except Exception as e:
